@@ -2,7 +2,9 @@
 
 Purely METAMORPHIC on the implementation (no reference decider is run, so the sizes go far beyond the brute-force
 references): every case carries a base input and 2-3 TWINS of it
-   (i)   relabelled by a random bijection to non-contiguous positive integers (sample of range(1, 10^6)),
+   (i)   relabelled by a random bijection to non-contiguous positive integers: 2/3 far apart (sample of 1..10^6), 1/3
+         from a SMALL range (random subset of 1..4m or 1..m*m), where arithmetic encodings of pairs of labels collide;
+         the single-crossing near-miss generator uses 16 such relabellings per base profile (0 included),
    (ii)  storage order of ballots / alternatives shuffled, members of tie classes shuffled, and the instance rebuilt
          through the public API (append_order_list of the expanded, shuffled ballot list: a different construction
          history of the same multiset of ballots),
@@ -748,6 +750,19 @@ def far_labels(rng, m):
     return rng.sample(range(1, 10 ** 6), m)
 
 
+def small_labels(rng, m, zero=False):
+    """non-contiguous ids from a SMALL range (random subset of 1..4m or 1..m*m; with zero: of 0..4m-1 / 0..m*m-1):
+    arithmetic encodings of pairs / sets of labels (a*m+b, a+b, a^b ...) collide here, never in 1..10^6"""
+    lo = 0 if zero else 1
+    hi = max(4 * m, m + 2) if rng.random() < 0.5 else max(m * m, m + 2)
+    return rng.sample(range(lo, lo + hi), m)
+
+
+def twin_labels(rng, m):
+    """2/3 far apart (sample of 1..10^6), 1/3 from a small range"""
+    return small_labels(rng, m) if rng.random() < 1 / 3 else far_labels(rng, m)
+
+
 def mk_twins(rng, alts, n, total, api=True, shuffle_classes=True):
     """(i) relabel, (ii) shuffle + rebuild, (iii) both — (i) is dropped at random to save time on big cases"""
     m = len(alts)
@@ -761,21 +776,21 @@ def mk_twins(rng, alts, n, total, api=True, shuffle_classes=True):
 
     tw = []
     if rng.random() < 0.6:
-        tw.append([far_labels(rng, m), ident_b, ident_a, 0, 0])
+        tw.append([twin_labels(rng, m), ident_b, ident_a, 0, 0])
     bp, ap, mode, cs = shuf()
     tw.append([list(alts), bp, ap, mode, cs])
     bp, ap, mode, cs = shuf()
-    tw.append([far_labels(rng, m), bp, ap, mode, cs])
+    tw.append([twin_labels(rng, m), bp, ap, mode, cs])
     return tw
 
 
-def ord_case(rng, alts, orders, mults, flags, axes=(), ks=(), **tags):
+def ord_case(rng, alts, orders, mults, flags, axes=(), ks=(), twins=None, **tags):
     orders = [[list(c) for c in o] for o in orders]
     orders, mults = _dedupe_sem(orders, list(mults))
     dt = infer_dt(alts, orders)
     if dt != 0:
         flags &= ~(F_SP | F_SC | F_SCC | F_TREE | F_DELDP | F_PARTBF)
-    tw = mk_twins(rng, alts, len(orders), sum(mults))
+    tw = twins(len(orders)) if twins else mk_twins(rng, alts, len(orders), sum(mults))
     return case("c15.ord", [dt, list(alts), orders, mults, tw, flags, [list(a) for a in axes], list(ks)],
                 m=len(alts), n=len(orders), **tags)
 
@@ -911,6 +926,55 @@ def gen_small(rng, tier, count, n_ilp, n_opt):
     return out
 
 
+def gen_sc_nearmiss(rng, tier, count, ntw):
+    """near-miss NON-single-crossing profiles for the two single-crossing recognisers: the 'two independent swaps'
+    obstruction (two disjoint adjacent pairs swapped in all four combinations) continued by a swap walk, or a swap
+    walk plus one adjacent-swap neighbour; m = 5..8, 4..8 ballots; MANY relabellings per base to small id ranges
+    (0 included: the C04 campaign uses ids 0..m-1 too), so that any arithmetic encoding of pairs of labels collides"""
+    out = []
+    for i in range(count):
+        m = rng.randint(5, 8)
+        alts = rand_perm(rng, range(1, m + 1))
+        r = rand_perm(rng, alts)
+        if i % 4 != 3:
+            pi = rng.randrange(0, m - 3)
+            qi = rng.randrange(pi + 2, m - 1)
+            used = {frozenset((r[pi], r[pi + 1])), frozenset((r[qi], r[qi + 1]))}
+
+            def sw(v, k):
+                v = list(v)
+                v[k], v[k + 1] = v[k + 1], v[k]
+                return v
+            votes = [r, sw(r, pi), sw(r, qi), sw(sw(r, pi), qi)]
+            cur = list(votes[-1])
+            for _ in range(rng.randint(0, 4)):
+                cands = [k for k in range(m - 1) if frozenset((cur[k], cur[k + 1])) not in used]
+                if not cands:
+                    break
+                k = rng.choice(cands)
+                used.add(frozenset((cur[k], cur[k + 1])))
+                cur = sw(cur, k)
+                votes.append(list(cur))
+            gen = "sc-nearmiss-2swaps"
+        else:
+            votes = c04.swap_walk(rng, alts, rng.randint(4, 7))
+            votes = c04.star(rng, votes, m, k=1) if len(votes) >= 2 else votes
+            gen = "sc-nearmiss-star"
+        votes = c03.distinct(votes)[:8]
+        rng.shuffle(votes)
+
+        def twins(n, m=m, alts=alts):
+            tw = []
+            for k in range(ntw):
+                lab = small_labels(rng, m, zero=True) if k % 4 != 3 else far_labels(rng, m)
+                bp = rand_perm(rng, range(n)) if k % 2 else list(range(n))
+                tw.append([lab, bp, rand_perm(rng, range(m)) if k % 2 else list(range(m)), 0, 0])
+            return tw
+        out.append(ord_case(rng, alts, [[[a] for a in v] for v in votes], rand_mults(rng, len(votes)),
+                            F_SC | F_SCC, [], [], twins=twins, gen=gen))
+    return out
+
+
 def gen_scoring(rng, tier, count):
     """tie-heavy profiles of every data type for the nine rules, the tables and has_condorcet"""
     out = []
@@ -948,9 +1012,9 @@ def gen_app(rng, tier, count):
         ident_b, ident_a = list(range(n)), list(range(m))
         tw = []
         if rng.random() < 0.6:
-            tw.append([far_labels(rng, m), ident_b, ident_a, 0])
+            tw.append([twin_labels(rng, m), ident_b, ident_a, 0])
         tw.append([list(alts), rand_perm(rng, ident_b), rand_perm(rng, ident_a), rng.randint(1, 10 ** 6)])
-        tw.append([far_labels(rng, m), rand_perm(rng, ident_b), rand_perm(rng, ident_a), rng.randint(1, 10 ** 6)])
+        tw.append([twin_labels(rng, m), rand_perm(rng, ident_b), rand_perm(rng, ident_a), rng.randint(1, 10 ** 6)])
         out.append(case("c15.app", [alts, ballots, tw, ncat], m=m, n=n,
                         gen="planted" if planted else "noisy"))
     return out
@@ -1017,6 +1081,7 @@ def generate(tier, seed):
     out = []
     out += gen_strict(rng, tier, 400 if q else 1600)
     out += gen_small(rng, tier, 120 if q else 500, 14 if q else 50, 10 if q else 40)
+    out += gen_sc_nearmiss(rng, tier, 120 if q else 600, 16)
     out += gen_scoring(rng, tier, 300 if q else 1500)
     out += gen_app(rng, tier, 200 if q else 1000)
     out += gen_mat(rng, tier, 200 if q else 1000)
